@@ -1,4 +1,5 @@
 import ClipVerif.Proofs.C14
+import ClipVerif.Proofs.C14b
 /-
 C14 — geometric measures and predicates are exact.  Theorems only; helper lemmas are in
 `ClipVerif/Proofs/C14.lean`.  All statements are about the *generated* model `Gen.*`
